@@ -477,8 +477,11 @@ fn pg<S: PageSize>(a: u64) -> Page<S> {
     unsafe { Page::from_start_address_unchecked(vaddr(a)) }
 }
 
+static ASID_OK: std::sync::atomic::AtomicU64 = std::sync::atomic::AtomicU64::new(1);
+
 fn invlpgb_run(s: u8, start: u64, end: u64, count_max: u16, pcid: Option<u16>, asid: Option<u16>, global: bool, fin: bool, nested: bool, nasid: u32) -> bool {
     let inv = Invlpgb::new_verif(count_max, nested, nasid);
+    ASID_OK.store(1, Ordering::SeqCst);
     catch(|| {
         macro_rules! go {
             ($S:ty) => {{
@@ -492,7 +495,7 @@ fn invlpgb_run(s: u8, start: u64, end: u64, count_max: u16, pcid: Option<u16>, a
                             b0.pcid(Pcid::new(p).unwrap());
                         }
                         if let Some(a) = asid {
-                            let _ = b0.asid(a);
+                            ASID_OK.store(b0.asid(a).is_ok() as u64, Ordering::SeqCst);
                         }
                     }
                     if global {
@@ -509,7 +512,7 @@ fn invlpgb_run(s: u8, start: u64, end: u64, count_max: u16, pcid: Option<u16>, a
                             b.pcid(Pcid::new(p).unwrap());
                         }
                         if let Some(a) = asid {
-                            let _ = b.asid(a);
+                            ASID_OK.store(b.asid(a).is_ok() as u64, Ordering::SeqCst);
                         }
                     }
                     if global {
@@ -568,6 +571,8 @@ fn invlpgb_case(out: &mut Out, s: u8, start: u64, end: u64, count_max: u16, pcid
             .n("count_max", count_max as i64)
             .n("pcid", pcid.map(|x| x as i64).unwrap_or(-1))
             .n("asid", asid.map(|x| x as i64).unwrap_or(-1))
+            .n("asid_ok", ASID_OK.load(Ordering::SeqCst) as i64)
+            .n("nasid", nasid as i64)
             .n("global", global as i64)
             .n("final", fin as i64)
             .n("nested", nested as i64)
@@ -692,9 +697,54 @@ pub fn run_flush(out: &mut Out, seed: u64, n: u64) {
         // ranges that span the gap (lower-half start, upper-half end) are in scope too: the
         // builder has to split them
         let pcid = if r.chance(1, 2) { Some(r.below(4096) as u16) } else { None };
-        let asid = if r.chance(1, 2) { Some(r.below(16) as u16) } else { None };
+        let asid = if r.chance(1, 2) { Some(if r.chance(1, 5) { *r.pick(&[16u16, 17, 255, 0xffff]) } else { r.below(16) as u16 }) } else { None };
         invlpgb_case(out, s, start, end, cm, pcid, asid, r.chance(1, 2), r.chance(1, 2), r.chance(1, 3), 16, false);
         cases += 1;
+    }
+    // a builder without a page range flushes everything: one request without an address
+    for i in 0..24u64 {
+        let (cm, nested, nasid) = (*r.pick(&cms), i % 3 == 0, 8 + (i as u32 % 3) * 8);
+        let inv = Invlpgb::new_verif(cm, nested, nasid);
+        // the capabilities the object was created with are what its getters report
+        out.emit(Ev::new("invlpgb_caps").n("count_max", cm as i64).n("nested", nested as i64).n("nasid", nasid as i64)
+            .ints("got", &[inv.invlpgb_count_max() as i64, inv.tlb_flush_nested() as i64, inv.nasid() as i64]));
+        let pcid = if i % 2 == 0 { Some(r.below(4096) as u16) } else { None };
+        let asid = if i % 4 < 2 { Some(r.below(24) as u16) } else { None };
+        let (global, fin) = (i % 5 < 2, i % 7 < 3);
+        let mut asid_ok = 1;
+        cpu::drain();
+        let ok = catch(|| {
+            let mut b = inv.build();
+            unsafe {
+                if let Some(p) = pcid {
+                    b.pcid(Pcid::new(p).unwrap());
+                }
+                if let Some(a) = asid {
+                    asid_ok = b.asid(a).is_ok() as i64;
+                }
+            }
+            if global {
+                b.include_global();
+            }
+            if fin {
+                b.final_translation_only();
+            }
+            let b = if nested { b.include_nested_translations() } else { b };
+            b.flush();
+        })
+        .is_some();
+        out.emit(
+            Ev::new("invlpgb_all")
+                .n("pcid", pcid.map(|x| x as i64).unwrap_or(-1))
+                .n("asid", asid.map(|x| x as i64).unwrap_or(-1))
+                .n("asid_ok", asid_ok)
+                .n("nasid", nasid as i64)
+                .n("global", global as i64)
+                .n("final", fin as i64)
+                .n("nested", nested as i64)
+                .str("k", if ok { "ok" } else { "panic" })
+                .raw("instrs", &instrs()),
+        );
     }
     // very long ranges (more pages than one request can ever carry), run under a watchdog
     let big: [(u8, u16, u64); 10] = [(0, 65535, 65536), (0, 65535, 65537), (0, 65535, 200_000), (1, 65535, 70_000), (0, 65534, 65536), (0, 4096, 50_000), (0, 255, 70_000), (1, 65535, 65535), (0, 32767, 65536 * 2), (0, 65535, 65536 * 3 + 5)];
